@@ -68,6 +68,23 @@ def run(ctx, rep):
         for k, v in sub.violations.items():
             rep.violation("oracle:%s" % k, "this flavour's stream reader deviates from the oracle its siblings satisfy — " + v.msg, loc=v.loc, config=cfg,
                           rule="oracle/" + (v.rule or ""))
+        # the same holds for the three operations whose copies are compared with a decision-level oracle elsewhere: bucket
+        # readers (C06: which lines are records), lookups (C05 b: which record wins), commits (C08: what is rejected). A copy
+        # that deviates from the oracle deviates from its siblings, so the deviation is a C12 finding too.
+        from . import c05, c06, c08
+        from .c01 import find_fns
+        for mod, tag, run_ in (
+                (c06, "C06", lambda sub_: [c06.check_reader(cfg, w, sub_, w.prog.fns[p_]) for p_ in w.roles.bucket_readers]),
+                (c05, "C05", lambda sub_: [c05.check_find(cfg, w, sub_, w.prog.fns[p_]) for p_ in sorted(find_fns(w))]),
+                (c08, "C08", lambda sub_: [c08.check_commit(cfg, w, sub_, w.prog.fns[p_]) for p_ in w.roles.commits])):
+            sub = Report(tag)
+            run_(sub)
+            for (c_, rule, k, desc, ok) in sub.obligations:
+                if ok:
+                    rep.ob(cfg, "oracle-%s/%s" % (tag, rule), k, desc)
+            for k, v in sub.violations.items():
+                rep.violation("oracle-%s:%s" % (tag, k), "this copy deviates from the oracle its sibling flavours satisfy — " + v.msg, loc=v.loc,
+                              config=cfg, rule="oracle-%s/%s" % (tag, v.rule or ""), witness=v.witness)
     return rep
 
 
@@ -277,8 +294,35 @@ def twin_name(p):
     return sp if sp is not None else p
 
 
+def order_sig(w, lf):
+    """Ordered pairs (A, B) of this function's own mutating steps — filesystem effects, and calls to crate functions that
+    reach one — such that B is reachable from A and not A from B: "whenever both happen, A happens first". A step is named by
+    (effect kind, provenance class head) or by the twin-normalised callee."""
+    prog = w.prog
+    body = lf.body
+    cf = prog.cfg(body)
+    steps = []
+    for e in w.own_effects(lf):
+        if e.mutating and e.body is body:
+            c = e.classes.get("dst") or e.classes.get("path") or e.classes.get("handle") or ("?",)
+            cur = c
+            while cur and cur[0] in ("Handle", "Parent") and len(cur) > 1:
+                cur = cur[1]
+            steps.append((e.blk, (e.kind, cur[0] if cur else "?")))
+    for b, blk, t, g in prog.local_calls(lf):
+        if b is body and any(x.mutating for x in w.reach_effects(g)):
+            steps.append((blk.i, ("call", twin_name(short(g.path)))))
+    out = set()
+    for (b1, s1) in steps:
+        for (b2, s2) in steps:
+            if s1 != s2 and b1 != b2 and cf.can_reach(b1, b2) and not cf.can_reach(b2, b1):
+                out.add((s1, s2))
+    return out
+
+
 def signature(w, fw, lf):
-    return {"effects": effect_sig(w, fw, lf), "errors": error_sig(w, lf), "roles": role_sig(w, lf), "handling": handling_sig(w, lf)}
+    return {"effects": effect_sig(w, fw, lf), "errors": error_sig(w, lf), "roles": role_sig(w, lf), "handling": handling_sig(w, lf),
+            "order": order_sig(w, lf)}
 
 
 def diff_sig(a, b):
@@ -288,6 +332,11 @@ def diff_sig(a, b):
         only_b = b[comp] - a[comp]
         if only_a or only_b:
             out.append((comp, only_a, only_b))
+    # order: only inversions count (A before B in one copy, B before A in the other) — a step present in one copy only is
+    # already an `effects` difference
+    inv_a = {(x, y) for (x, y) in a.get("order", ()) if (y, x) in b.get("order", ()) and (x, y) not in b.get("order", ())}
+    if inv_a:
+        out.append(("order", inv_a, {(y, x) for (x, y) in inv_a}))
     return out
 
 
